@@ -19,6 +19,15 @@ CLAIMED = {
             "execution counts over histories are not decided"),
 }
 
+CLAIMED.update({
+    "C04": ("value-origin flow + decision tables for the untracked origin (MIR)", "per-revision execution counts are not decided"),
+    "C05": ("loop-exit condition / callee contracts / store census in the eviction closure / must-call on revision reset (MIR)", "cache contents for concrete histories are not decided"),
+    "C06": ("order/flow on id seeding, identity construction, active/stale partition, must-delete-stale (MIR)", "id equality for concrete programs is not decided"),
+    "C07": ("generation-bump flow, must-clear-memos-before-reuse order, lock-word decision refinement, identity-layout tables (MIR + impl tables)", "absence of aliasing in concrete histories is not decided"),
+    "C08": ("lock-set discipline over unsynchronised cells (Engler-style who-accesses-under-which-lock), single-critical-section order, shard/hash flow (MIR)", "handle equality for concrete inputs and schedules is not decided"),
+    "C09": ("decision refinement in the direction reclaim => allowed, staleness comparison strictness, queue-shift flow, const table (MIR)", "revision-timeline arithmetic for concrete gaps is not decided"),
+})
+
 PENDING = "check not built yet in this round (see DESIGN.md section 5 for the planned static obligations)"
 NOT_APPLICABLE = {}
 
